@@ -858,6 +858,21 @@ where
         freq: &FrequencySketch,
         counters: &mut EvictionCounters,
     ) {
+        // This write op is outdated if the map no longer holds the very value it was
+        // created for: the key has been updated again (the newer op does the work),
+        // invalidated, evicted or rejected since it was queued, or two threads queued
+        // their ops in the opposite order of their map updates. Acting on it would
+        // touch whatever entry the map holds for the key *now*, or leave deque nodes
+        // and counters for an entry that the map does not hold.
+        let is_current = self
+            .cache
+            .get(&kh.key)
+            .map(|e| TrioArc::ptr_eq(&*e, &entry))
+            .unwrap_or(false);
+        if !is_current {
+            return;
+        }
+
         entry.set_dirty(false);
 
         if entry.is_admitted() {
@@ -884,7 +899,8 @@ where
                     crate::verif::sp("sync.reject");
                     crate::verif::map_probe(&|| self.cache.try_get_mut(&kh.key).is_locked());
                 }
-                self.cache.remove(&Arc::clone(&kh.key));
+                self.cache
+                    .remove_if(&kh.key, |_, v| TrioArc::ptr_eq(v, &entry));
                 return;
             }
         }
@@ -910,8 +926,13 @@ where
                                 .is_locked()
                         });
                     }
+                    // Remove the victim only if the map still holds the incarnation
+                    // this node belongs to.
+                    let vic_elem = unsafe { &victim.as_ref().element };
                     if let Some((_vic_key, vic_entry)) =
-                        self.cache.remove(unsafe { victim.as_ref().element.key() })
+                        self.cache.remove_if(vic_elem.key(), |_, v| {
+                            std::ptr::eq(&**v.entry_info(), vic_elem.entry_info())
+                        })
                     {
                         // And then remove the victim from the deques.
                         Self::handle_remove(deqs, vic_entry, counters);
@@ -937,7 +958,8 @@ where
                     crate::verif::sp("sync.reject");
                     crate::verif::map_probe(&|| self.cache.try_get_mut(&kh.key).is_locked());
                 }
-                self.cache.remove(&Arc::clone(&kh.key));
+                self.cache
+                    .remove_if(&kh.key, |_, v| TrioArc::ptr_eq(v, &entry));
             }
         };
 
@@ -991,7 +1013,10 @@ where
                 next_victim = DeqNode::next_node_ptr(victim);
                 let vic_elem = &unsafe { victim.as_ref() }.element;
 
-                if let Some(vic_entry) = cache.get(vic_elem.key()) {
+                if let Some(vic_entry) = cache
+                    .get(vic_elem.key())
+                    .filter(|v| std::ptr::eq(&**v.entry_info(), vic_elem.entry_info()))
+                {
                     victims.add_policy_weight(vic_entry.policy_weight());
                     victims.add_frequency(freq, vic_elem.hash());
                     victim_nodes.push(victim);
